@@ -14,20 +14,20 @@ ifeq ($(FLAVOUR),fast)
   LIBFLAGS  := -O2 -g1 -fopenmp
   SCENFLAGS := -O1 -g1 -fopenmp -DSIM_FLAVOUR_FAST
   SIMFLAGS  := -O2 -g1 -DSIM_FLAVOUR_FAST
-  LDFLAGS   :=
+  LDFLAGS   := -Wl,--wrap=exit
 endif
 ifeq ($(FLAVOUR),trace)
   LIBFLAGS  := -O1 -g1 -fopenmp -fsanitize=thread
   SCENFLAGS := -O1 -g1 -fopenmp -fsanitize=thread -DSIM_FLAVOUR_TRACE
   SIMFLAGS  := -O2 -g1 -DSIM_FLAVOUR_TRACE -DSIM_TRACE -DSIM_WRAP_MEM
-  LDFLAGS   := -Wl,--wrap=memcpy,--wrap=memmove,--wrap=memset
+  LDFLAGS   := -Wl,--wrap=memcpy,--wrap=memmove,--wrap=memset,--wrap=exit
 endif
 ifeq ($(FLAVOUR),asan)
   SAN       := -fsanitize=address,undefined -fno-sanitize-recover=undefined -fno-omit-frame-pointer
   LIBFLAGS  := -O1 -g1 -fopenmp $(SAN) -D_GLIBCXX_ASSERTIONS
   SCENFLAGS := -O1 -g1 -fopenmp $(SAN) -D_GLIBCXX_ASSERTIONS -DSIM_FLAVOUR_ASAN
   SIMFLAGS  := -O1 -g1 $(SAN) -DSIM_FLAVOUR_ASAN -DSIM_NO_NEW_INTERPOSE
-  LDFLAGS   := $(SAN)
+  LDFLAGS   := $(SAN) -Wl,--wrap=exit
 endif
 
 # --- library sources from the repo's working tree (found at make time, so new/removed files are picked up)
